@@ -57,6 +57,19 @@ int64_t evaluate_assignment(
         return TypedValue(ret.value, InferredType(resolved, ""));
     };
 
+    // `T op= v` on an element (parsed as `T = T' op v`) whose index has a side
+    // effect: the index of T is evaluated here, once and before the
+    // right-hand side, and T' reuses the value.
+    std::vector<int64_t> compound_target_indices;
+    if (node->left->node_type == ASTNodeType::AST_ARRAY_REF && node->right &&
+        node->right->node_type == ASTNodeType::AST_BINARY_OP &&
+        node->right->left && node->right->left->reuse_assign_target_indices) {
+        compound_target_indices =
+            interpreter.extract_array_indices(node->left.get());
+    }
+    Interpreter::AssignTargetIndicesScope target_indices_scope(
+        interpreter, node, compound_target_indices);
+
     try {
         right_value = evaluate_typed_expression_func(node->right.get());
         has_typed_value = true;
@@ -133,7 +146,9 @@ int64_t evaluate_assignment(
         }
 
         int64_t index_value =
-            evaluate_expression_func(node->left->array_index.get());
+            compound_target_indices.empty()
+                ? evaluate_expression_func(node->left->array_index.get())
+                : compound_target_indices.back();
         if (right_value.is_string()) {
             std::string string_value = right_value.string_value;
             std::string replacement;
